@@ -48,7 +48,10 @@ def viol(clause, **d):
 
 def run_case(case):
     spec = case['classes']
-    comp_classes, _ = build_dag(spec, root=RecBase, prefix='K', decorate=False)
+    # component classes carry the generated event-handler shapes: the removal path of handler components is
+    # not the one of plain components
+    comp_classes, _ = build_dag(spec, root=RecBase, prefix='K', decorate=True)
+    sink = []
     proc_classes, _ = build_dag(spec, root=ProcRoot, prefix='P', decorate=False)
     n = len(comp_classes)
     ents = []
@@ -68,6 +71,8 @@ def run_case(case):
         rows = []
         for types in ents:
             comps = [t() for t in types]
+            for c in comps:
+                c._log = sink
             e = w.create_entity(*comps)
             rows.append((e, comps))
         procs = [t() for t in ptypes]
